@@ -6,7 +6,7 @@ TECH = 'contract-based deductive verification: Verus discharges contracts splice
 CLAIMS = {
  'C04': dict(text='Lexical kernel only: property names produced by raw_name_to_ts_field are identifier-like or correctly quoted/escaped string literals for every string; doc blocks are exactly one comment; the file layout is notice, imports, docs, `export` declaration, newline. Proved for all inputs by Verus on the lifted real text.',
              note='Not decided: that decl() itself parses as TypeScript, names interpolated inside generated format! templates (tag/content/variant literals), the `format` feature. Trusted: std string contracts, Unicode alphanumerics treated as TS identifier characters.'),
- 'C05': dict(text='Histories and inputs: merge() is proved to be sorted insertion of the new declaration plus union of imports on well-formed files, hence confluent, idempotent and lossless; the registry logic of export_and_merge is proved to skip already-exported types. Unbounded in file size and number of declarations.',
+ 'C05': dict(text='Histories and inputs: merge() is proved to be sorted insertion of the whole new declaration (unit merge) plus the ascending rendering of the union of both import headers, each name once (unit merge_imports); the registry logic of export_and_merge is proved to skip already-exported types. Unbounded in file size and number of declarations.',
              note='Not decided: thread interleavings (the Mutex argument is dropped by rewrite R6); declarations containing blank lines or the words `export type ` are outside the well-formedness hypothesis (known finding D7). Trusted: std string/collection contracts.'),
  'C06': dict(text='Spelling independence: every export entry point reaches export_to with the canonical form norm(cwd ++ dir ++ output_path) of the target, so the registry key (and file) does not depend on how the directory is spelled or which entry point is used. Proved as call-site preconditions.',
              note='Not decided: independence from call order and from stale files as directory contents (needs a file-system model). Trusted: std::path contracts (unix), fixed working directory.'),
@@ -18,7 +18,7 @@ CLAIMS = {
              note='Not decided: equivalence of the hand-written ts/serde key tables and inertness of unknown serde keys (syn parser programs; the parsers are opaque stubs). Trusted: Option::or contract, syn skeletons.'),
  'C11': dict(text='Path agreement only: the path a type reports (default_output_path) normalises to the registry key / file location export_all writes, for every base directory spelling.',
              note='Not decided: "creates exactly one file per location and touches nothing else" (file-system frame over a generated dependency visitor).'),
- 'C13': dict(text='Output-ordering mechanisms only: merge() output is a function of the set of imports and the sorted declaration list.',
+ 'C13': dict(text='Output-ordering mechanisms of merge() only: declarations are placed by sorted insertion and the import block is proved to be the rendering, in ascending order, of the set of (path, name) pairs whatever their arrival order (units merge, merge_imports).',
              note='Not decided: hash-seed independence of the derive macro across compilations, test scheduling.'),
  'C15': dict(text='Containment and placement: parse_docs renders a doc block that is exactly one comment for every doc text (no `*/` can end it early); FieldAttr::merge drops docs of flattened fields; from_attrs takes docs only from doc attributes; generate_decl places the block immediately before `export`.',
              note='Not decided: placement inside generated format! templates; variant docs (not emitted). Known finding D7 for merged files with blank lines inside doc blocks.'),
